@@ -149,3 +149,20 @@ Theorem C04_webhook_row_roundtrip : forall hs,
   exists cells, flow_unparse (hook_row hs) false = Ok cells /\ flow_parse cells = Ok (hook_row hs).
 Proof. exact webhook_row_roundtrip. Qed.
 Print Assumptions C04_webhook_row_roundtrip.
+
+(* ---- has_group-edge-outside-group-split (compile side): a has_group case made from an edge always names its group *)
+From RPFT Require Import Exp.CaseArgs.
+Theorem C04_has_group_edge_arguments_repaired :
+  has_group_edges_by_name = true ->
+  forall row_type cond_type value,
+    edge_case_type row_type cond_type = t_has_group ->
+    edge_case_arguments row_type cond_type value = [None; Some value].
+Proof. exact has_group_edge_arguments_repaired. Qed.
+Print Assumptions C04_has_group_edge_arguments_repaired.
+
+Theorem C04_has_group_edge_witness :
+  recorded_group_name (edge_case_type t_wait_for_response t_has_group)
+                      (edge_case_arguments t_wait_for_response t_has_group w_my_group)
+  = if has_group_edges_by_name then Some (Some w_my_group) else None.
+Proof. exact has_group_edge_witness. Qed.
+Print Assumptions C04_has_group_edge_witness.
